@@ -21,12 +21,20 @@ func byteDecision(c *Ctx, fn *ssa.Function) []byteOutcome {
 	bv := ssa.Value(fn.Params[0])
 	var out []byteOutcome
 	var walk func(b, prev *ssa.BasicBlock, bs *ByteSet, conds []string, depth int)
+	phiVal := map[*ssa.Phi]ssa.Value{} // value of each phi on the path being walked (set on block entry, restored on the way back)
 	is := func(o ssa.Value) bool { return o == bv }
 	emit := func(v ssa.Value, at, prev *ssa.BasicBlock, bs *ByteSet, conds []string) {
 		// resolve a returned phi by the predecessor we came from
 		for i := 0; i < 4; i++ {
 			ph, ok := v.(*ssa.Phi)
-			if !ok || prev == nil {
+			if !ok {
+				break
+			}
+			if r, ok := phiVal[ph]; ok {
+				v = r
+				continue
+			}
+			if prev == nil {
 				break
 			}
 			for j, p := range ph.Block().Preds {
@@ -53,17 +61,89 @@ func byteDecision(c *Ctx, fn *ssa.Function) []byteOutcome {
 				return
 			}
 		}
+		// a returned test that does not involve the byte (an option flag): one outcome per truth value
+		if bo, ok := v.(*ssa.BinOp); ok && (bo.Op == token.NEQ || bo.Op == token.EQL) && bo.X != bv && bo.Y != bv {
+			l, pos := flagLabel(c, bo)
+			tl, fl := l, "!"+l
+			if !pos {
+				tl, fl = fl, tl
+			}
+			out = append(out, byteOutcome{bs, append(append([]string{}, conds...), tl), "true"})
+			out = append(out, byteOutcome{bs, append(append([]string{}, conds...), fl), "false"})
+			return
+		}
 		out = append(out, byteOutcome{bs, conds, "?"})
 	}
 	walk = func(b, prev *ssa.BasicBlock, bs *ByteSet, conds []string, depth int) {
 		if depth > 200 {
 			return
 		}
+		// phis of b take the value of the edge we came in on
+		if prev != nil {
+			type saved struct {
+				ph  *ssa.Phi
+				old ssa.Value
+				had bool
+			}
+			var undo []saved
+			for j, p := range b.Preds {
+				if p != prev {
+					continue
+				}
+				for _, ins := range b.Instrs {
+					ph, ok := ins.(*ssa.Phi)
+					if !ok {
+						break
+					}
+					v := ph.Edges[j]
+					if p2, ok := v.(*ssa.Phi); ok {
+						if r, ok := phiVal[p2]; ok {
+							v = r
+						}
+					}
+					old, had := phiVal[ph]
+					undo = append(undo, saved{ph, old, had})
+					phiVal[ph] = v
+				}
+				break
+			}
+			defer func() {
+				for _, u := range undo {
+					if u.had {
+						phiVal[u.ph] = u.old
+					} else {
+						delete(phiVal, u.ph)
+					}
+				}
+			}()
+		}
 		switch t := b.Instrs[len(b.Instrs)-1].(type) {
 		case *ssa.Return:
 			emit(t.Results[0], b, prev, bs, conds)
 		case *ssa.If:
-			if bo, ok := t.Cond.(*ssa.BinOp); ok && (bo.X == bv || bo.Y == bv) {
+			// a short-circuit condition used as a value (`case a || b:`): the boolean phi is resolved by the
+			// edge this path came in on
+			cond := t.Cond
+			for i := 0; i < 4; i++ {
+				ph, ok := cond.(*ssa.Phi)
+				if !ok {
+					break
+				}
+				r, ok := phiVal[ph]
+				if !ok {
+					break
+				}
+				cond = r
+			}
+			if k, ok := cond.(*ssa.Const); ok && k.Value != nil {
+				if k.Value.String() == "true" {
+					walk(b.Succs[0], b, bs, conds, depth+1)
+				} else {
+					walk(b.Succs[1], b, bs, conds, depth+1)
+				}
+				return
+			}
+			if bo, ok := cond.(*ssa.BinOp); ok && (bo.X == bv || bo.Y == bv) {
 				ts := refineByCond(bs, bo, true, is)
 				fs := refineByCond(bs, bo, false, is)
 				if !ts.empty() {
@@ -74,9 +154,16 @@ func byteDecision(c *Ctx, fn *ssa.Function) []byteOutcome {
 				}
 				return
 			}
-			l := condLabel(c, t.Cond)
-			walk(b.Succs[0], b, bs, append(append([]string{}, conds...), l), depth+1)
-			walk(b.Succs[1], b, bs, append(append([]string{}, conds...), "!"+l), depth+1)
+			l, pos := condLabel(c, cond), true
+			if bo, ok := cond.(*ssa.BinOp); ok {
+				l, pos = flagLabel(c, bo)
+			}
+			tl, fl := l, "!"+l
+			if !pos {
+				tl, fl = fl, tl
+			}
+			walk(b.Succs[0], b, bs, append(append([]string{}, conds...), tl), depth+1)
+			walk(b.Succs[1], b, bs, append(append([]string{}, conds...), fl), depth+1)
 		default:
 			for _, s := range b.Succs {
 				walk(s, b, bs, conds, depth+1)
@@ -85,6 +172,15 @@ func byteDecision(c *Ctx, fn *ssa.Function) []byteOutcome {
 	}
 	walk(fn.Blocks[0], nil, fullSet(), nil, 0)
 	return out
+}
+
+// flagLabel: canonical label of a test x != k / x == k: always the "!=" spelling, with the polarity of the test.
+func flagLabel(c *Ctx, bo *ssa.BinOp) (string, bool) {
+	if bo.Op == token.EQL {
+		le := newLinEnv(linOpts{pathLoads: true})
+		return le.pretty(le.norm(bo.X)) + "!=" + le.pretty(le.norm(bo.Y)), false
+	}
+	return condLabel(c, bo), true
 }
 
 func setOfString(s string) *ByteSet {
